@@ -15,11 +15,15 @@ from ..model import AnalysisError, FuncInfo, call_name, last_attr, names_in, unp
 from ..semgrep_rules import alternatives, parse_call
 from .c07 import fixed_image, result_hook, rule_detected
 
+CHILD_SEQ_ATTRS = {"elements", "args", "body", "values", "parts", "expressions", "comparisons", "items", "targets"}
 KIND_HOOK = {"call": "leave_Call", "assign": "leave_Assign", "class": "leave_ClassDef", "with": "leave_With", "module": "leave_Module"}
 EXPR_KINDS = {"Call", "BooleanOperation", "Comparison", "UnaryOperation", "BinaryOperation", "Subscript", "Attribute", "IfExp", "Lambda",
               "FormattedString", "ConcatenatedString", "List", "Tuple", "Set", "Dict", "ListComp", "NamedExpr", "Await", "Arg", "Element"}
-COMPOUND = {"ClassDef", "FunctionDef", "If", "With", "For", "While", "Try", "IndentedBlock", "Module", "Else", "SimpleStatementSuite"}
-SIMPLE_WITH_EXPR = {"Assign", "AnnAssign", "AugAssign", "Expr", "Return", "SimpleStatementLine", "Assert", "Raise", "Decorator", "WithItem"}
+COMPOUND = {"ClassDef", "FunctionDef", "If", "With", "For", "While", "Try", "IndentedBlock", "Module", "Else"}
+SIMPLE_WITH_EXPR = {"Assign", "AnnAssign", "AugAssign", "Expr", "Return", "Assert", "Raise", "Decorator", "WithItem"}
+# one physical line of small statements (`a = 1; b = 2`, or the body of `if x: a = 1`): holds small statements and expressions, never another line / block
+SMALL_STATEMENT_HOLDERS = {"SimpleStatementLine", "SimpleStatementSuite"}
+SMALL_STATEMENTS = {"Assign", "AnnAssign", "AugAssign", "Expr", "Return", "Assert", "Raise", "Import", "ImportFrom", "Global", "Nonlocal", "Pass", "Del", "Break", "Continue"}
 LEAVES = {"Import", "ImportFrom", "ImportAlias", "Break", "Continue", "Pass", "Name", "SimpleString", "Integer", "Float", "Global"}
 
 
@@ -28,6 +32,8 @@ def can_contain(outer: str, inner: str) -> bool:
         return False
     if outer in COMPOUND:
         return True
+    if outer in SMALL_STATEMENT_HOLDERS:
+        return inner in EXPR_KINDS or inner in SMALL_STATEMENTS or inner in ("Name", "SimpleString")
     if outer in SIMPLE_WITH_EXPR:
         return inner in EXPR_KINDS or inner in ("Name", "SimpleString")
     if outer in EXPR_KINDS:
@@ -182,32 +188,94 @@ def lost_update_sites(ctx, tm):
             if isinstance(n, ast.Starred) and isinstance(n.value, ast.Attribute) and isinstance(n.value.value, ast.Name) and n.value.value.id == orig and n.value.attr in ("args", "body", "elements"):
                 if fa.reachable(n) if hasattr(n, "lineno") else True:
                     out.append((m, n, f"*original.{n.value.attr}", f"`*{orig}.{n.value.attr}` copies the original children into the result"))
+        # children captured from the original node by a `match` and put into a freshly constructed result
+        captured: dict[str, ast.AST] = {}
+        for mt in walk_no_nested(m.node):
+            if isinstance(mt, ast.Match):
+                root = mt.subject
+                while isinstance(root, (ast.Attribute, ast.Subscript)):
+                    root = root.value
+                if not (isinstance(root, ast.Name) and root.id == orig):
+                    continue
+                for cs in mt.cases:
+                    for pat in ast.walk(cs.pattern):
+                        if isinstance(pat, ast.MatchClass):
+                            for kw, sub in zip(pat.kwd_attrs, pat.kwd_patterns):
+                                if kw in CHILD_SEQ_ATTRS and isinstance(sub, ast.MatchAs) and sub.name and sub.pattern is None:
+                                    captured[sub.name] = mt
+        if captured:
+            for n in walk_no_nested(m.node):
+                if isinstance(n, ast.Return) and isinstance(n.value, ast.Call) and fa.reachable(n) and (unparse(n.value.func).startswith("cst.") or (last_attr(n.value.func) or "") == "with_changes"):
+                    used = [k.value.id for k in n.value.keywords if isinstance(k.value, ast.Name) and k.value.id in captured]
+                    used += [x.value.id for k in n.value.keywords for x in ast.walk(k.value) if isinstance(x, ast.Starred) and isinstance(x.value, ast.Name) and x.value.id in captured]
+                    if used:
+                        out.append((m, n, f"captured:{used[0]}", f"`{unparse(n)[:60]}` is built from `{used[0]}`, children captured from the original node by `match {unparse(captured[used[0]].subject)}`"))
     return out, mod_kinds
 
 
-def rule_lost_update(ctx, rep):
+# confirmed exceptions of R-LOST-UPDATE: (class, how) -> why nothing the transformer rewrites can sit inside the node at that site
+LOST_UPDATE_EXEMPT = {
+    ("core_codemods.semgrep.semgrep_rsa_key_size.RsaKeySizeTransformer", "return-original"):
+        "the original node is returned only for a reported call with fewer than two arguments; the rule reports a call for a *literal* key size, so "
+        "that single argument is the literal and no other reported call can be nested in it",
+}
+ANCESTOR_DECLINES = {"FunctionDef": "find_immediate_function_def", "ClassDef": "find_immediate_class_def"}
+
+
+def _declines_when_nested(ctx, m: FuncInfo, orig: str) -> bool:
+    """The hook gives up on any node that has an ancestor of its own kind (`if self.find_immediate_function_def(original_node): return ...`):
+    then nothing it rewrites ever sits strictly inside a node of that kind."""
+    kind = m.name[len("leave_"):] if m.name.startswith("leave_") else None
+    helper = ANCESTOR_DECLINES.get(kind or "")
+    if not helper:
+        return False
+    for st in walk_no_nested(m.node):
+        if isinstance(st, ast.If) and len(st.body) == 1 and isinstance(st.body[0], ast.Return) and isinstance(st.body[0].value, ast.Name):
+            t = st.test
+            if isinstance(t, ast.Call) and last_attr(t.func) == helper and t.args and isinstance(t.args[0], ast.Name) and t.args[0].id == orig:
+                return True
+    return False
+
+
+def rule_lost_update(ctx, rep, rule_id="R-LOST-UPDATE", all_codemods=False):
     rep.rule(
-        "R-LOST-UPDATE",
-        "in every transformer of a rule-detected codemod: a leave_<X>/on_result_found hook does not return its original node, nor rebuild "
-        "its result from original_node's children (replace_args(original_node, ..), original_node.with_changes, *original_node.args), "
-        "when a node kind the same transformer rewrites can occur strictly inside X — otherwise a nested reported location is reverted",
+        rule_id,
+        "in every transformer of a " + ("registered libcst" if all_codemods else "rule-detected") + " codemod: a leave_<X>/on_result_found hook does not return its original node, nor rebuild "
+        "its result from original_node's children (replace_args(original_node, ..), original_node.with_changes, *original_node.args, children "
+        "captured by `match original_node...`), when a node kind the same transformer rewrites can occur strictly inside X — otherwise the inner "
+        "fix is reverted (and done by the next run: no fixed point) while its change may still be reported",
         min_instances=15,
     )
     seen = set()
-    for cm in rule_detected(ctx) + [c for c in ctx.registry.codemods if c.id in ("pixee:python/use-generator", "pixee:python/use-walrus-if")]:
+    if all_codemods:
+        cms = [c for c in ctx.registry.codemods if c.pipeline == "libcst"]
+    else:
+        cms = rule_detected(ctx) + [c for c in ctx.registry.codemods if c.id in ("pixee:python/use-generator", "pixee:python/use-walrus-if")]
+    for cm in cms:
         for tq in cm.transformers:
             if tq in seen or tq not in ctx.prog.classes:
                 continue
             seen.add(tq)
             tm = ctx.tmodel(tq)
             sites, mod_kinds = lost_update_sites(ctx, tm)
+            kept = []
+            for m, n, how, msg in sites:
+                ex = LOST_UPDATE_EXEMPT.get((tq, how.split(":")[0]))
+                orig_p, _u = _node_params(m)
+                if ex is None and mod_kinds == {m.name[len("leave_"):]} and _declines_when_nested(ctx, m, orig_p):
+                    ex = f"the only hook that rewrites gives up on a {m.name[len('leave_'):]} nested in another one ({ANCESTOR_DECLINES[m.name[len('leave_'):]]}): nothing it rewrites sits inside this node"
+                if ex:
+                    rep.instance(rule_id, tq, m.loc(n), True, detail=f"{m.name}:{how}", exempt=ex)
+                else:
+                    kept.append((m, n, how, msg))
+            sites = kept
             if not sites:
-                rep.instance("R-LOST-UPDATE", tq, ctx.prog.classes[tq].loc(), True, detail="no result built from the original node", modifies=sorted(mod_kinds))
+                rep.instance(rule_id, tq, ctx.prog.classes[tq].loc(), True, detail="no result built from the original node", modifies=sorted(mod_kinds))
             by = {}
             for m, n, how, msg in sites:
                 by.setdefault((m.qname, how), (m, n, msg))
             for (mq, how), (m, n, msg) in by.items():
-                rep.check("R-LOST-UPDATE", tq, m.loc(n), False, f"{m.name}:{how}",
+                rep.check(rule_id, tq, m.loc(n), False, f"{m.name}:{how}",
                           f"{msg}; this transformer also rewrites {sorted(mod_kinds)} which can be nested inside: the inner fix is lost while its change is still reported "
                           f"({cm.id})")
 
